@@ -25,6 +25,7 @@ Role_G2 == [a \in AG2 |-> IF a = "g1" THEN "collector" ELSE "committer"]
 Idx_G2 == [a \in AG2 |-> IF a = "c1" THEN 1 ELSE IF a = "c2" THEN 2 ELSE 3]
 Sep_G2 == [a \in AG2 |-> a]
 Prog_G2 == [a \in AG2 |-> IF a = "c1" THEN <<App(1)>> ELSE IF a = "c2" THEN <<App(2)>> ELSE <<GC(10)>>]
+Create == [t |-> "create"]
 A1 == {"c1"}
 Role_C1 == [a \in A1 |-> "committer"]
 Idx_1 == [a \in A1 |-> 1]
@@ -45,11 +46,14 @@ Shared_2 == [a \in A2 |-> "h"]
 Sep_3 == [a \in A3 |-> a]
 Shared_3 == [a \in A3 |-> "h"]
 
+Prog_2Create == [a \in A2 |-> <<Create, App(Idx_2[a])>>]
 Prog_2App == [a \in A2 |-> IF a = "c1" THEN <<App(1)>> ELSE <<App(2)>>]
 Prog_AppDel == [a \in A2 |-> IF a = "c1" THEN <<App(1)>> ELSE <<Del({961})>>]
 Prog_ExpDs == [a \in A2 |-> IF a = "c1" THEN <<Exp(2)>> ELSE <<DelSnapInit(2)>>]
 Prog_AppExp == [a \in A2 |-> IF a = "c1" THEN <<App(1)>> ELSE <<Exp(2)>>]
 Prog_3AppDelExp == [a \in A3 |-> IF a = "c1" THEN <<App(1)>> ELSE IF a = "c2" THEN <<Del({961})>> ELSE <<Exp(2)>>]
+Prog_3Create == [a \in A3 |-> <<Create>>]
+Prog_CreateVsApp == [a \in A2 |-> IF a = "c1" THEN <<Create, App(1)>> ELSE <<App(2)>>]
 Prog_3App == [a \in A3 |-> IF a = "c1" THEN <<App(1)>> ELSE IF a = "c2" THEN <<App(2)>> ELSE <<App(3)>>]
 Prog_3Mix == [a \in A3 |-> IF a = "c1" THEN <<App(1)>> ELSE IF a = "c2" THEN <<Exp(2)>> ELSE <<DelSnapInit(2)>>]
 Prog_2x2 == [a \in A2 |-> IF a = "c1" THEN <<App(1), Del({961})>> ELSE <<App(2), Exp(2)>>]
